@@ -403,12 +403,10 @@ theorem C10_engine_after_transition (m : Machine) (t : Trigger) (c c' : Cfg) (r 
     (∃ tr ∈ out m s, matchesEv tr t.event = true ∧ c'.cur = some (stateVal m tr.target)) ∨
     (m.allow = true ∧ r = .none) := by
   unfold trigger at h
-  split at h
-  · rename_i he; rw [hne] at he; cases he
   obtain ⟨c1, cfg, h1, hb⟩ := EM.bind_ok h
   have hc1 : c1 = c ∧ cfg = c := by simp [EM.get] at h1; exact ⟨h1.1.symm, h1.2.symm⟩
   obtain ⟨rfl, rfl⟩ := hc1
-  simp only [hcur] at hb
+  simp only [hne, Bool.false_and, Bool.false_eq_true, if_false, hcur] at hb
   obtain ⟨c2, a, h2, hc⟩ := EM.bind_ok hb
   cases a with
   | some r' =>
